@@ -42,7 +42,9 @@ func DefaultConfig() *Config {
 		},
 		BenignGlobals: map[string]bool{"errors.errorType": true, "google.golang.org/protobuf/runtime/protoimpl.X": true,
 			// zero-valued variable without initialiser
-			"github.com/buildbarn/bb-storage/pkg/auth.defaultAuthenticationMetadata": true},
+			"github.com/buildbarn/bb-storage/pkg/auth.defaultAuthenticationMetadata": true,
+			// only compared against by pkg/runner's initialisers
+			"os/exec.ErrNotFound": true, "os.ErrPermission": true},
 		ZeroFuncs: map[string]bool{
 			"github.com/buildbarn/bb-storage/pkg/util.DecimalExponentialBuckets": true,
 			RepoModule + "/pkg/util.GetBrowserURL":                              true, // only used in human-readable messages
